@@ -1,4 +1,6 @@
 #!/bin/sh
+# developer tool (not a registered command). The scratch worktree is created on demand and removed by hand when done:
+[ -d /tmp/wt/ST ] || { mkdir -p /tmp/wt && git -C /repo worktree add -q --detach /tmp/wt/ST HEAD; }
 # usage: check_variant.sh <check ids...> : runs checks against the scratch worktree /tmp/wt/ST (never /repo), with its own facts cache and evidence dir
 export GX_REPO=/tmp/wt/ST GX_CACHE=/tmp/wt/ST-cache GX_EVIDENCE_DIR=/tmp/wt/ST-evidence
 cd /verif
